@@ -22,7 +22,8 @@ SHARD = 300
 
 TARGETS = [0, 1, 3, 5, 6, 10, -2, 'a', '', None, True,
            {'k': 'dict', 'od': False, 'id': 1, 'items': [['n', 7]]}, {'k': 'dict', 'od': False, 'id': 2, 'items': [['n', 2]]},
-           {'k': 'dict', 'od': False, 'id': 3, 'items': []}]
+           {'k': 'dict', 'od': False, 'id': 3, 'items': []}, {'k': 'dict', 'od': False, 'id': 4, 'items': [['n', 2], ['m', 5]]},
+           {'k': 'dict', 'od': False, 'id': 5, 'items': [['n', 6], ['m', 6]]}]
 
 
 class Gen:
@@ -32,11 +33,16 @@ class Gen:
 
     def atom(self):
         r = self.r
-        k = r.choice(['m', 'm', 'msub', 'mtruth', 'type', 'lit', 'pred', 'tfail'])
+        k = r.choice(['m', 'm', 'msub', 'msides', 'mtruth', 'type', 'lit', 'pred', 'tfail'])
         if k == 'm':
             return ['MExpr', ['M'], r.choice(['>', '<', '=', '!', 'g', 'l']), ['Lit', r.choice([0, 3, 5])]]
         if k == 'msub':
-            return ['MExpr', ['MSub', ['T', 'T', [['[', ['Str', 'n']]]]], r.choice(['>', '<', '=']), ['Lit', 5]]
+            return ['MExpr', ['MSub', ['T', 'T', [['[', ['Str', 'n']]]]], r.choice(['>', '<', '=', '!', 'g', 'l']), ['Lit', 5]]
+        if k == 'msides':
+            # both sides computed: M(T[..]) against M(T[..]), M against M(T[..]) and the other way round
+            n, m = ['MSub', ['T', 'T', [['[', ['Str', 'n']]]]], ['MSub', ['T', 'T', [['[', ['Str', 'm']]]]]
+            lhs, rhs = r.choice([(n, m), (m, n), (n, n), (['M'], n), (n, ['M']), (['M'], ['M'])])
+            return ['MExpr', lhs, r.choice(['>', '<', '=', '!', 'g', 'l']), rhs]
         if k == 'mtruth':
             return ['M']
         if k == 'type':
